@@ -81,6 +81,8 @@ type scenario struct {
 	Setup func(c *fw.Ctx, name string) explore.Setup
 	// Shards > 1 splits the exploration into subtree shards (separate units).
 	Shards int
+	// Group: scenarios of one group run in one unit.
+	Group string
 }
 
 func tierCfg(tier string, quick, thorough explore.Config) explore.Config {
@@ -102,7 +104,48 @@ func boundStr(cfg explore.Config) string {
 
 func scenarioUnits(scs []scenario) []fw.Unit {
 	var us []fw.Unit
+	// grouped scenarios: one unit explores all scenarios of a group
+	groups := map[string][]scenario{}
+	var order []string
+	var single []scenario
 	for _, sc := range scs {
+		if sc.Group == "" {
+			single = append(single, sc)
+			continue
+		}
+		if _, ok := groups[sc.Group]; !ok {
+			order = append(order, sc.Group)
+		}
+		groups[sc.Group] = append(groups[sc.Group], sc)
+	}
+	for _, g := range order {
+		g := g
+		list := groups[g]
+		us = append(us, fw.Unit{ID: "group:" + g, Run: func(c *fw.Ctx) {
+			var tot explore.Stats
+			exh := true
+			for _, sc := range list {
+				st := explore.Explore(c, sc.Cfg, sc.Setup(c, sc.Name))
+				tot.Execs += st.Execs
+				tot.Complete += st.Complete
+				tot.Pruned += st.Pruned
+				tot.States += st.States
+				tot.Deadlocks += st.Deadlocks
+				if st.MaxPoints > tot.MaxPoints {
+					tot.MaxPoints = st.MaxPoints
+				}
+				exh = exh && st.Exhaustive
+				if !st.Exhaustive {
+					break
+				}
+			}
+			c.Bound("group:"+g, map[string]interface{}{"scenarios": len(list), "bounds": boundStr(list[0].Cfg), "executions": tot.Execs, "complete": tot.Complete, "pruned": tot.Pruned, "states": tot.States, "max_points": tot.MaxPoints, "deadlocks": tot.Deadlocks, "exhaustive_within_bounds": exh})
+			if c.WantSample() {
+				c.Sample(map[string]interface{}{"group": g, "first_scenario": list[0].Name, "last_scenario": list[len(list)-1].Name, "scenarios": len(list), "bounds": boundStr(list[0].Cfg), "executions": tot.Execs})
+			}
+		}})
+	}
+	for _, sc := range single {
 		sc := sc
 		n := sc.Shards
 		if n < 1 {
